@@ -5,6 +5,7 @@ package main
 import (
 	"fmt"
 	"go/token"
+	"os"
 	"sort"
 	"strings"
 
@@ -191,6 +192,7 @@ func ruleSeqhash(c *Ctx, prop string) {
 				env := newModeEnv(h, map[*ssa.Parameter]bool{pCirc: circ, pDS: ds}, map[*ssa.Parameter]string{pType: typ})
 				tb := newTB(h)
 				tb.Choose = env.choose
+				tb.Feasible = func(b *ssa.BasicBlock) bool { return env.reach[b] }
 				if typ == "PROTEIN" && ds {
 					st := holds
 					if env.reach[sum.Block()] {
@@ -242,6 +244,9 @@ func ruleSeqhash(c *Ctx, prop string) {
 						// x itself written differently (e.g. U->T before upper-casing): same vocabulary, different arrangement
 						if !got.known() {
 							raw := tb.T(cz.resolve(cv.X))
+							if os.Getenv("DEBUG_STATE") != "" {
+								fmt.Println("DEBUG canon raw:", raw.String())
+							}
 							if len(opaqueParts(raw, vocabOf(x, "call[poly/transform.ReverseComplement]", "call[poly/seqhash.RotateSequence]", "call[sort.Strings]"))) == 0 && misNormalised(raw, x) {
 								st = broken
 							}
@@ -299,6 +304,7 @@ func ruleSeqhash(c *Ctx, prop string) {
 			if env.reach[mt.site.Block()] {
 				etb := newTB(h)
 				etb.Choose = env.choose
+				tb.Feasible = func(b *ssa.BasicBlock) bool { return env.reach[b] }
 				m2 := mt
 				m2.over = etb.T(mt.overV).String()
 				if mt.alphaV != nil {
@@ -318,6 +324,7 @@ func ruleSeqhash(c *Ctx, prop string) {
 				if cl, ok := i.(*ssa.Call); ok && env.reach[cl.Block()] && (calleeName(cl) == "strings.IndexAny" || calleeName(cl) == "strings.ContainsAny") {
 					etb := newTB(h)
 					etb.Choose = env.choose
+					tb.Feasible = func(b *ssa.BasicBlock) bool { return env.reach[b] }
 					if _, isC := etb.T(cl.Call.Args[1]).constStr(); isC && isStringType(cl.Call.Args[0].Type()) {
 						if _, isRune := cl.Call.Args[0].(*ssa.Convert); !isRune {
 							black = cl
@@ -337,6 +344,10 @@ func ruleSeqhash(c *Ctx, prop string) {
 			continue
 		}
 		mt := mine[0]
+		if mt.narrowed {
+			c.bad("GUARD", key, mt.site.Pos(), "for "+typ+" every letter is converted to a single byte before it is looked up in the alphabet: a non-ASCII letter whose low byte is an allowed letter (U+0141 'Ł' -> 'A', U+012A 'Ī' -> '*') is accepted and hashed instead of rejected")
+			continue
+		}
 		if mt.conditional {
 			c.undecided("GUARD", key, mt.site.Pos(), "the membership test sits in a helper that decides by itself when it runs; which alphabet applies to "+typ+" is not read")
 			continue
@@ -439,8 +450,11 @@ func misNormalised(raw *Term, x string) bool {
 	raw.walk(func(t *Term) {
 		if t.isCall("strings.ReplaceAll") || t.isCall("strings.ToUpper") {
 			uses++
-			// the only acceptable occurrences are sub-terms of x itself
-			if !strings.Contains(x, t.String()) {
+			// the only acceptable occurrences are sub-terms of x itself; an occurrence whose operand is a merge
+			// of values (a parameter kept in a cell because a function literal reads it) says nothing
+			if !strings.Contains(x, t.String()) && !t.contains(func(y *Term) bool {
+				return y.Op == "anyof" || y.Op == "phi" || y.Op == "alloc" || y.Op == "rec" || y.Op == "freevar" || y.Op == "closurewrite" || y.Op == "unknown"
+			}) {
 				bad = true
 			}
 		}
@@ -456,6 +470,8 @@ type memberTest struct {
 	over   string
 	// the test sits in a helper that holds several tests or reaches it under a condition of its own
 	conditional bool
+	// the letter is cut down to one byte before it is looked up
+	narrowed bool
 }
 
 // membershipTests finds, in Hash and the same-package helpers it calls, loops that test every rune
@@ -558,7 +574,14 @@ func membershipTests(h *ssa.Function) []memberTest {
 			return
 		}
 		x := cl.Call.Args[1]
+		narrowed := false
 		if cv, ok := x.(*ssa.Convert); ok {
+			// byte(r) of a rune keeps only its low eight bits: U+0141 becomes 'A'
+			if tname(cv.Type()) == "uint8" || tname(cv.Type()) == "byte" {
+				if tn := tname(cv.X.Type()); tn == "int32" || tn == "rune" {
+					narrowed = true
+				}
+			}
 			x = cv.X
 		}
 		ex, ok := x.(*ssa.Extract)
@@ -573,7 +596,7 @@ func membershipTests(h *ssa.Function) []memberTest {
 		if !ok {
 			return
 		}
-		out = append(out, memberTest{site: cl, alphaV: cl.Call.Args[0], overV: rg.X})
+		out = append(out, memberTest{site: cl, alphaV: cl.Call.Args[0], overV: rg.X, narrowed: narrowed})
 	})
 	return out
 }
@@ -636,11 +659,12 @@ func sameSet(a, b string) bool {
 }
 
 // rcState: is transform.ReverseComplement exactly reversal∘complement?
-//   holds   – descending fill of strings.Map(ComplementBase, s), or Reverse(Complement(s)) with Reverse a
-//             recognised reversal and Complement = strings.Map(ComplementBase, s)
-//   broken  – a recognised form with a special case that returns the input (or a partial result)
-//             for some non-empty strings
-//   unknown – anything else
+//
+//	holds   – descending fill of strings.Map(ComplementBase, s), or Reverse(Complement(s)) with Reverse a
+//	          recognised reversal and Complement = strings.Map(ComplementBase, s)
+//	broken  – a recognised form with a special case that returns the input (or a partial result)
+//	          for some non-empty strings
+//	unknown – anything else
 func rcState(w *World) (int, string) {
 	f := w.fn("transform", "ReverseComplement")
 	if f == nil {
